@@ -198,6 +198,7 @@ func checkC15(r *core.Run) {
 		c01StatusAs(r, u, "C15.truth")
 	}
 	c15ManagerTruth(r)
+	c15ReplySession(r)
 	r.Floor("C15.route", 4)
 	r.Floor("C15.echo", 16)
 	r.Floor("C15.once", 6)
@@ -274,5 +275,41 @@ func c15ManagerTruth(r *core.Run) {
 				r.Check(!ex.St.Has("fail:step") && ex.Class != flow.ExitErr, "C15.truth", k, w.Pos(ex.Pos), "success status only on a path without a failed step and with a nil error", "the success status "+c.Name()+" is returned on a path where a step has failed (or together with an error)")
 			}
 		}
+	}
+}
+
+// c15ReplySession: the reply travels on a session chosen from this request alone: either no session is named
+// (the selector then routes by the xid of the reply body) or the caller's own session parameter is handed on.
+// A session looked up in a table shared by all requests (keyed by message id, say) lets one request's reply
+// follow another request's entry: message ids are numbered per coordinator, not per client.
+func c15ReplySession(r *core.Run) {
+	w := r.W
+	gc := w.NamedType("pkg/remoting/getty", "GettyRemotingClient")
+	f := methodInfo(w, gc, "SendAsyncResponse")
+	if r.Anchor("C15.route", f, "GettyRemotingClient.SendAsyncResponse") == nil {
+		return
+	}
+	info := f.Pkg.TypesInfo
+	n := 0
+	for _, cs := range w.Calls(f) {
+		if cs.Static == nil || core.RecvNamed(cs.Static) == nil || core.RecvNamed(cs.Static).Obj().Name() != "GettyRemoting" || !strings.HasPrefix(cs.Static.Name(), "Send") {
+			continue
+		}
+		sig := cs.Static.Type().(*types.Signature)
+		for i := 0; i < sig.Params().Len() && i < len(cs.Call.Args); i++ {
+			if !strings.HasSuffix(sig.Params().At(i).Type().String(), "getty.Session") {
+				continue
+			}
+			n++
+			r.Sites++
+			a := cs.Call.Args[i]
+			o := origin(f, a, 4)
+			ok := isNilIdent(info, a) || o == "nil" || strings.HasPrefix(o, "param:")
+			r.Check(ok, "C15.route", core.ShortKey(f.Obj)+" reply session depends on this request only", w.Pos(cs.Call.Pos()), "session: "+o,
+				"the session the reply is sent on comes from "+o+", state shared by all requests in flight: two coordinators number their requests independently, so an entry of one request can route another request's reply (one coordinator gets no answer, the other gets two)")
+		}
+	}
+	if n == 0 {
+		r.Bad("C15.route", core.ShortKey(f.Obj)+" reply session depends on this request only", w.Pos(f.Decl.Pos()), "no send with a session argument found")
 	}
 }
